@@ -750,6 +750,38 @@ class Gen:
         self.rng.shuffle(u)
         return u
 
+    def registry_product(self, max_log=45.0):
+        """a unit with >= 2 factors, a prefix on (almost) every factor drawn from the whole q..Q range, whose
+        dimension is that of some table unit (a candidate of the registry-based simplification); the total
+        factor to base units spans many orders of magnitude"""
+        rng = self.rng
+        for _ in range(50):
+            target = rng.choice(self.names)
+            d = self.tbl.dim([F(target)])
+            if not d:
+                continue
+            a = self.factor(prefix_p=0.9, exp=rng.choice([1, 1, 1, -1, 2]))
+            rest = dict(d)
+            for b, e in self.tbl.dim([a]).items():
+                rest[b] = rest.get(b, 0) - e
+            rest = {b: e for b, e in rest.items() if e != 0}
+            if not rest or any(e.denominator != 1 for e in rest.values()):
+                continue
+            u = [a]
+            if rng.random() < 0.5:
+                key = tuple(sorted(rest.items()))
+                if key in self.groups:
+                    u.append(self.factor(rng.choice(self.groups[key]), prefix_p=0.9))
+                    rest = {}
+            for b, e in sorted(rest.items()):
+                u.append(self.factor(rng.choice(self.single.get(b, [b])), exp=e, prefix_p=0.9))
+            sc = self.tbl.scale(u)
+            if abs(math.log10(sc.numerator) - math.log10(sc.denominator)) > max_log:
+                continue
+            rng.shuffle(u)
+            return u
+        return None
+
     def lit(self, u=None, zero_p=0.08):
         return ("lit", f2bits(rand_magnitude(self.rng, zero_p)), self.unit() if u is None else u)
 
@@ -950,10 +982,14 @@ def any_scale(tbl, u):
 
 
 def rel_close(x, y, rel):
-    x, y = float(x), float(y)
     if x == y:
         return True
-    return abs(x - y) <= rel * max(abs(x), abs(y))
+    try:
+        x, y = Fraction(x), Fraction(y)          # exact; no overflow for huge magnitudes
+    except (ValueError, OverflowError, TypeError):
+        x, y = float(x), float(y)
+        return abs(x - y) <= rel * max(abs(x), abs(y))
+    return abs(x - y) <= Fraction(rel) * max(abs(x), abs(y))
 
 
 # float-exact replica of Quantity::convert_to for ONE-factor units with different
